@@ -215,10 +215,12 @@ func c04Run(cfg deriveCfg) {
 	verifrt.Reach("c04.end")
 }
 
-func VerifC04Plain()     { c04Run(deriveCfg{depth: 2, maxStr: 1, shards: 1}) }
-func VerifC04Sanitized() { c04Run(deriveCfg{depth: 1, maxStr: -1, shards: 1, sanitize: true}) }
+func VerifC04Plain()      { c04Run(deriveCfg{depth: 2, maxStr: 1, shards: 1}) }
+func VerifC04Sanitized()  { c04Run(deriveCfg{depth: 1, maxStr: -1, shards: 1, sanitize: true}) }
 func VerifC04Sanitized2() { c04Run(deriveCfg{depth: 2, maxStr: -1, shards: 1, sanitize: true}) }
-func VerifC04Shards2()   { c04Run(deriveCfg{depth: 2, maxStr: 1, shards: 2}) }
-func VerifC04TwoTags()   { c04Run(deriveCfg{depth: 2, maxStr: -1, shards: 1, twoTagMap: true, fixedRoot: true}) }
-func VerifC04Deep()      { c04Run(deriveCfg{depth: 3, maxStr: 1, shards: 1, twoTagMap: true}) }
-func VerifC04Long()      { c04Run(deriveCfg{depth: 2, maxStr: 2, shards: 1}) }
+func VerifC04Shards2()    { c04Run(deriveCfg{depth: 2, maxStr: 1, shards: 2}) }
+func VerifC04TwoTags() {
+	c04Run(deriveCfg{depth: 2, maxStr: -1, shards: 1, twoTagMap: true, fixedRoot: true})
+}
+func VerifC04Deep() { c04Run(deriveCfg{depth: 3, maxStr: 1, shards: 1, twoTagMap: true}) }
+func VerifC04Long() { c04Run(deriveCfg{depth: 2, maxStr: 2, shards: 1}) }
